@@ -66,7 +66,10 @@ func init() {
 
 var c18Kinds = map[string]string{"K1": "C18KindA", "K2": "C18KindB"}
 var c18KindsRev = map[string]string{"C18KindA": "K1", "C18KindB": "K2"}
-var c18Names = []string{"a", "b", "c"}
+
+// object names: "svc" is a proper string prefix of "svc-canary" and "sv" of both, i.e. the store keys
+// /config/objects/<name> are nested prefixes of one another (the contract treats names as independent)
+var c18Names = []string{"svc", "svc-canary", "sv"}
 
 func c18Options(dir, name, role string, primaryPeerURLs []string) *option.Options {
 	opt := option.New()
